@@ -738,6 +738,13 @@ inline MultiIndexSet getLargestConnected(MultiIndexSet const &current, MultiInde
 std::vector<double> GridWavelet::getCandidateConstructionPoints(double tolerance, TypeRefinement criteria, int output, std::vector<int> const &level_limits){
 
     MultiIndexSet refine_candidates = getRefinementCanidates(tolerance, criteria, output, level_limits);
+    if (!dynamic_values->data.empty() && !refine_candidates.empty()){
+        // samples that were delivered but are not yet connected to the grid are neither in points nor in initial_points,
+        // they must not be offered (and computed) a second time
+        Data2D<int> pending(num_dimensions, 0);
+        for(auto const &d : dynamic_values->data) pending.appendStrip(d.point);
+        refine_candidates = refine_candidates - MultiIndexSet(pending);
+    }
     MultiIndexSet new_points = (dynamic_values->initial_points.empty()) ? std::move(refine_candidates) : refine_candidates - dynamic_values->initial_points;
 
     // compute the weights for the new_points points
